@@ -441,3 +441,15 @@ V("c05-getitem-no-base-style", "C05", TX, "                self.plain[offset],\n
 V("c05-append-text-lazy-self-extend", "C05", TX, "        self._spans.extend(text_spans)\n        self._length += len(text)\n        return self\n\n    def append_tokens", "        self._spans.extend(\n            _Span(start + text_length, end + text_length, style)\n            for start, end, style in text._spans\n        )\n        self._length += len(text)\n        return self\n\n    def append_tokens", "R5.10")
 V("c05-benign-getitem-range-normalise", "C05", TX, "            if slice < 0:\n                slice += len(self.plain)\n                if slice < 0:\n                    raise IndexError(\"Text index out of range\")\n            return get_text_at(slice)\n", "            index = range(len(self.plain))[slice]\n            return get_text_at(index)\n", None)
 V("c15-styled-export-includes-control", "C15", CONS, "                    for text, style, is_control in self._record_buffer\n                    if not is_control\n", "                    for text, style, _ in self._record_buffer\n", "R15.5")
+
+# ---- round 5 / D35 -----------------------------------------------------------
+SY = "rich/syntax.py"
+V("c17-guides-resplit-default", "C17", SY, '            lines = guides_text.with_indent_guides(self.tab_size, style=style).split(\n                "\\n", allow_blank=True\n            )\n', '            lines = guides_text.with_indent_guides(self.tab_size, style=style).split("\\n")\n', "R17.10")
+V("c17-guides-no-compensation", "C17", SY, '            guides_text.append("\\n")\n', '', "R17.10")
+V("c17-guides-empty-selection", "C17", SY, "        if self.indent_guides and not options.ascii_only and lines:\n", "        if self.indent_guides and not options.ascii_only:\n", "R17.10")
+V("c17-guides-double-compensation", "C17", SY, '            guides_text.append("\\n")\n', '            guides_text.append("\\n")\n            guides_text.append("\\n")\n', "R17.10")
+V("c17-benign-guides-join-extra", "C17", SY, '            guides_text = Text("\\n").join(lines)\n            # with_indent_guides drops one trailing new line\n            guides_text.append("\\n")\n', '            guides_text = Text("\\n").join(lines + [Text()])\n', None)
+V("c10-console-exit-conditional", "C10", "rich/console.py", '        """Exit buffer context."""\n        self._exit_buffer()\n', '        """Exit buffer context."""\n        if exc_type is None:\n            self._exit_buffer()\n', "R10.12")
+V("c10-status-update-truthy", "C10", "rich/status.py", "        if speed is not None:\n            self.speed = speed\n", "        if speed:\n            self.speed = speed\n", "R10.13")
+V("c05-render-dedup-stack", "C05", "rich/text.py", "            styles = tuple(style_map[_style_id] for _style_id in sorted(stack))\n", "            styles = tuple(style_map[_style_id] for _style_id in sorted(set(stack)))\n", "R5.13")
+V("c05-render-unsorted-stack", "C05", "rich/text.py", "            styles = tuple(style_map[_style_id] for _style_id in sorted(stack))\n", "            styles = tuple(style_map[_style_id] for _style_id in stack)\n", "R5.4")
